@@ -5,15 +5,20 @@ from .. import gen as G
 from .common import TRUSTED, ASSUMPTIONS, default_nontrivial, LEVEL_NOTE, TECHNIQUE
 
 LEVEL = "proof"
-THEOREMS = ['C07_comm_simplex', 'C07_comm', 'C07_comm_shared', 'C07_idem_avg', 'C07_idem_wgh', 'C07_vacuous_neutral', 'C07_acm_u_le_min', 'C07_avg_u_between', 'C07_wgh_u_between', 'C07_acm_assoc', 'C07_fold_perm', 'C07_tree_perm', 'C07_fold_grouping', 'C07_fold_assign']
-RULE = ("fuse on operand pairs run in both orders (cross-case: commutativity), self-fusion (idempotence), vacuous partners (neutrality), "
+THEOREMS = ['C07_comm_simplex', 'C07_comm_base_rate_unconditional', 'C07_comm', 'C07_comm_shared', 'C07_idem_avg', 'C07_idem_wgh', 'C07_vacuous_neutral', 'C07_acm_u_le_min', 'C07_avg_u_between', 'C07_wgh_u_between', 'C07_acm_assoc', 'C07_fold_perm', 'C07_tree_perm', 'C07_fold_grouping', 'C07_fold_assign']
+RULE = ("fuse on operand pairs run in both orders (cross-case: commutativity; the two orders' fused base rates must be EQUAL bit for bit, the "
+        "simplexes within the spec tolerance), incl. a stream of pairs whose base rates differ by less than ulps_eq! resolves -- a small entry "
+        "(2^-8..2^-20 in f32, down to 2^-45 in f64, outside the (0,eps] band) differing by eps/4..eps absolutely, i.e. by up to 6 % of the entry, "
+        "or an ordinary entry differing by 1..4 ulps; all four operators, ECm three times as often, grid simplexes and simplexes with a small "
+        "uncertainty and a small mass --, self-fusion (idempotence), vacuous partners (neutrality), "
         "uncertainty bounds; fuse_fold on sequences of 2..6 non-dogmatic opinions sharing a base rate under all permutations (<=720, "
         "sampled 24 per sequence in quick) and the right-nested grouping, by value / fuse_assign / OpinionRef rhs; n=2..4; families "
         "A/M/D/N; f32+f64. non-trivial = value returned")
 EXHAUSTIVE = {}
 nontrivial = default_nontrivial
 CROSS_GROUPS = [0]
-LEVEL_TEXT = ("Theorems over the exact model: all four operators commutative; Avg/Wgh idempotent; ACm/Wgh return the other operand "
+LEVEL_TEXT = ("Theorems over the exact model: all four operators commutative on any two well-formed operands (the fused base rate for ALL "
+              "operands of the model, finite or not); Avg/Wgh idempotent; ACm/Wgh return the other operand "
               "unchanged for a vacuous partner; uncertainty bounds; ACm associative for non-dogmatic operands sharing a base rate, hence "
               "List.Perm-invariance of folds of any length. The implementation is run in both operand orders and under all permutations "
               "and groupings of folds; results must agree with each other within a few ulps and with the exact canonical-order fold.")
@@ -26,11 +31,147 @@ def perms_sample(rng, k, limit):
     return [tuple(range(k))] + rng.sample(allp[1:], limit - 1)
 
 
+def _exact(fmt, x):
+    """x (a Fraction) is a value of format fmt"""
+    return Fr(G.round_fmt(fmt, float(x))) == x
+
+
+def close_base_rates(rng, fmt, n):
+    """Two base-rate distributions over n states, each summing to exactly 1 in `fmt`, that differ in entry i0 (and, to compensate, in
+    the largest other entry) by an amount `ulps_eq!` with default arguments does not see:
+      mode "abs":  entry i0 is small -- m/16 * 2^-k, m = 16..31, k = 8..20 (f32) / 8..45 (f64): above eps, outside the (0, eps] band of
+                   is_zero -- and the two operands' entries differ by eps/4, eps/2 or eps ABSOLUTELY, which is up to 6 % of the entry;
+      mode "ulps": entry i0 has an ordinary magnitude (grid 1/8 .. 1/64) and the operands' entries differ by 1..4 ulps.
+    Returns (a_left, a_right, mode, i0) as Fractions, or None when no exact pair was found."""
+    e = Fr(1, 2 ** (23 if fmt == "f32" else 52))
+    for _ in range(50):
+        mode = rng.choice(["abs", "abs", "abs", "ulps"])
+        i0 = rng.randrange(n)
+        rest = [i for i in range(n) if i != i0]
+        if not rest:
+            return None
+        if mode == "abs":
+            hi = 20 if fmt == "f32" else 45
+            k = rng.randint(hi - 3, hi) if rng.random() < 0.5 else rng.randint(8, hi)     # half of them: eps is per cents of the entry
+            s = Fr(rng.randint(16, 31), 16) / 2 ** k
+            d = e / rng.choice([1, 1, 2, 4])
+        else:
+            s = Fr(rng.randint(1, 7), rng.choice([8, 16, 64]))
+            d = Fr(G.step(fmt, float(s), rng.randint(1, 4))) - s
+        if rng.random() < 0.5:
+            d = -d
+        # the remaining mass 1 - s on a coarse grid over the other entries, the difference d taken from the largest of them
+        c = G.composition(rng, 8, len(rest))
+        if max(c) == 0:
+            continue
+        a1 = [Fr(0)] * n
+        a1[i0] = s
+        for j, cj in zip(rest, c):
+            a1[j] = (1 - s) * Fr(cj, 8)
+        big = max(rest, key=lambda j: a1[j])
+        a2 = list(a1)
+        a2[i0] = s + d
+        a2[big] = a1[big] - d
+        if a2[big] < 0 or a2[i0] <= e or a1[i0] <= e:
+            continue
+        if all(_exact(fmt, x) for x in a1 + a2) and sum(a1) == 1 and sum(a2) == 1 and a1[i0] != a2[i0] \
+                and abs(a1[i0] - a2[i0]) <= (e if mode == "abs" else 4 * e):
+            return (a1, a2, mode, i0) if rng.random() < 0.5 else (a2, a1, mode, i0)
+    return None
+
+
+def skew_simplex(rng, fmt, n, den, i0, s0):
+    """a simplex on the grid 1/den, or one with a small uncertainty and a small mass (the operands on which epistemic fusion's
+    maximisation divides a small projection by a small base rate): u = m/16 * 2^-j, one mass m'/16 * 2^-k -- half of the time the
+    mass of state i0 and of the magnitude of s0 (the base-rate entry of that state), so that the state decides the maximal
+    uncertainty --, the rest exact"""
+    if rng.random() < 0.5:
+        return G.rand_simplex(rng, n, den, rng.choice(["int", "int", "int", "any", "vac"]))
+    lim = 20 if fmt == "f32" else 40
+    for _ in range(20):
+        u = Fr(rng.randint(16, 31), 16) / 2 ** rng.randint(2, lim - 6)
+        b = [Fr(0)] * n
+        if rng.random() < 0.5:
+            i = i0
+            b[i] = s0 * Fr(rng.randint(2, 14), 16)         # b_i0 / a_i0 below the other states' ratios: state i0 attains the minimum
+        else:
+            i = rng.randrange(n)
+            b[i] = Fr(rng.randint(16, 31), 16) / 2 ** rng.randint(6, lim)
+        j = (i + 1 + rng.randrange(n - 1)) % n if n > 1 else i
+        b[j] = b[j] + 1 - u - sum(b)
+        if min(b) >= 0 and all(_exact(fmt, x) for x in b + [u]) and sum(b) + u == 1:
+            return b, u
+    return G.rand_simplex(rng, n, den, "int")
+
+
+def targeted_simplex(rng, fmt, n, i0, s0):
+    """a simplex whose state i0 carries a mass of 0, 1/4, 1/2 or 3/4 of the binade of s0 (the base-rate entry of that state) and whose other
+    mass sits on one other state: b_i0 / a_i0 is below the other states' ratios, so state i0 decides ECm's maximal uncertainty"""
+    top = Fr(1)
+    while top > s0:
+        top /= 2
+    for _ in range(20):
+        u = Fr(rng.randint(1, 7), 8) if rng.random() < 0.6 else Fr(rng.randint(16, 31), 16) / 2 ** rng.randint(2, 12)
+        b = [Fr(0)] * n
+        b[i0] = top * Fr(rng.randint(0, 3), 4)
+        j = (i0 + 1 + rng.randrange(n - 1)) % n
+        b[j] = 1 - u - b[i0]
+        if min(b) >= 0 and all(_exact(fmt, x) for x in b + [u]):
+            return b, u
+    return None
+
+
+def close_pair(rng, fmt):
+    """(n, op, w1, w2): two well-formed operands (exact in fmt) whose base rates differ by less than `ulps_eq!` with default arguments
+    resolves (`close_base_rates`); all four operators, ECm three times as often and then mostly on simplexes that let the state with
+    the close entries decide the maximal uncertainty.  None when no exact pair was found."""
+    n = rng.choice([2, 2, 3, 4])
+    pr = close_base_rates(rng, fmt, n)
+    if pr is None:
+        return None
+    a1, a2, _mode, i0 = pr
+    den = rng.choice([4, 8, 16, 64])
+    b1, u1 = skew_simplex(rng, fmt, n, den, i0, a1[i0])
+    b2, u2 = skew_simplex(rng, fmt, n, den, i0, a2[i0])
+    op = rng.choice([1, 1, 1, 0, 2, 3])
+    if op == 1 and rng.random() < 0.6:
+        t1, t2 = targeted_simplex(rng, fmt, n, i0, a1[i0]), targeted_simplex(rng, fmt, n, i0, a2[i0])
+        if t1 and t2:
+            (b1, u1), (b2, u2) = t1, t2
+    return n, op, b1 + [u1] + a1, b2 + [u2] + a2
+
+
+def close_pair_lines(rng, fmt, count):
+    """`fuse` cases on `close_pair` operands, one operand order each (streams of C02 / C03)"""
+    out = []
+    for _ in range(count):
+        cp = close_pair(rng, fmt)
+        if cp is None:
+            continue
+        n, op, w1, w2 = cp
+        var = rng.choice(G.FAMS_1D) + rng.choice([".o", ".r", ".o.asg", ".r.asg"])
+        out.append(G.line("fuse", fmt, var, [n, op, 0], w1 + w2))
+    return out
+
+
 def cases(rng, tier):
     CROSS_GROUPS[0] = 0
     out = []
     for fmt in ("f64", "f32"):
         N = 800 if tier == "quick" else 20000
+        # base rates that differ by less than `ulps_eq!` resolves (at most eps absolutely on small entries: per cents of the entry;
+        # 1..4 ulps at ordinary magnitudes), both operand orders in one group, all four operators with emphasis on ECm: the two orders'
+        # base rates must be EQUAL, bit for bit (kind "commx")
+        for _ in range(N // 2):
+            cp = close_pair(rng, fmt)
+            if cp is None:
+                continue
+            n, op, w1, w2 = cp
+            fam = rng.choice(G.FAMS_1D)
+            gid = CROSS_GROUPS[0]; CROSS_GROUPS[0] += 1
+            var = fam + rng.choice([".o", ".r", ".o.asg"])
+            out.append((G.line("fuse", fmt, var, [n, op, 0], w1 + w2), ("commx", gid, 0, n)))
+            out.append((G.line("fuse", fmt, var, [n, op, 0], w2 + w1), ("commx", gid, 1, n)))
         for _ in range(N):
             n = rng.choice([2, 3, 4])
             den = rng.choice([4, 8, 16, 64])
@@ -112,11 +253,17 @@ def cross(res):
         if len(vals) < 2:
             continue
         fmt = res[idx[0]]["case"].split(" ")[1]
-        tol = G.TAU_SPEC[fmt] * (1 if kind == "comm" else 8)
+        tol = G.TAU_SPEC[fmt] * (1 if kind in ("comm", "commx") else 8)
         ref = vals[0][1]
         for i, v in vals[1:]:
-            if not G.close_lists(tol, ref, v):
-                fails.append({"name": "C07.commutative" if kind == "comm" else "C07.fold_order_independent(impl-vs-impl)",
+            ok = G.close_lists(tol, ref, v)
+            if ok and kind in ("comm", "commx") and res[i]["case"].startswith("fuse "):
+                # the fused BASE RATE of the two orders must be the same value, exactly: every arm of compute_base_rate is symmetric in
+                # the operands up to the order of the operands of one IEEE `+` (theorem C07_comm_base_rate_unconditional)
+                n = res[i]["meta"][3]
+                ok = len(v) >= 2 * n + 1 and ref[n + 1:2 * n + 1] == v[n + 1:2 * n + 1]
+            if not ok:
+                fails.append({"name": "C07.commutative" if kind in ("comm", "commx") else "C07.fold_order_independent(impl-vs-impl)",
                               "indices": [vals[0][0], i]})
                 break
     return fails
